@@ -93,6 +93,8 @@ def execute_sched(case):
 
 
 def callargs(prog, i, x):
+    if prog["nodes"][i]["params"] == "":
+        return {}
     return {"x": x, "y": 7} if prog["nodes"][i]["params"] == "x,y" else {"x": x}
 
 
